@@ -85,8 +85,9 @@ fn exec_ops(ctx: &mut Ctx, ev: &Ev) {
         let self_xor = &a ^ &a;
         let mut self_vals: Vec<bool> = (0..1usize << n).map(|m| self_xor.value(m)).collect();
         // the result of the aliased form must be a form over the same variables: its arity, its table
-        let self_lut = Lut::from(&self_xor);
-        self_vals.push(self_xor.num_vars() != n || self_lut.num_vars() != n || self_lut != Lut::zero(n));
+        // (the table only if the arity is right: a result claiming 300 variables must not be tabulated)
+        let arity_ok = self_xor.num_vars() == n;
+        self_vals.push(!arity_ok || Lut::from(&self_xor) != Lut::zero(n));
         let xs = [&a ^ &b, &a ^ b.clone(), a.clone() ^ &b, a.clone() ^ b.clone()];
         let ns = [!&a, !a.clone()];
         let va: Vec<bool> = (0..1usize << n).map(|m| a.value(m)).collect();
@@ -200,7 +201,8 @@ fn exec_chain(ctx: &mut Ctx, ev: &Ev) {
             };
             steps.push(((0..1usize << n).map(|m| acc.value(m)).collect(), acc.num_cubes(), acc.is_zero(), acc.is_one()));
         }
-        let l = Lut::from(&acc);
+        // a result of the wrong arity is reported below (empty table), never tabulated
+        let l = if acc.num_vars() == n { Lut::from(&acc) } else { Lut::zero(0) };
         (steps, l)
     });
     match r {
@@ -216,7 +218,7 @@ fn exec_chain(ctx: &mut Ctx, ev: &Ev) {
                 ctx.check("esop-is-zero-sound", !*isz || want.iter().all(|b| !*b), ev, "chain-is_zero", || "is_zero on a non-zero chain result".into());
                 ctx.check("esop-is-one-sound", !*iso || want.iter().all(|b| *b), ev, "chain-is_one", || "is_one on a non-one chain result".into());
             }
-            ctx.check("esop-to-lut", Model::from_blocks(n, l.blocks()).bits == want, ev, "chain-lut", || "Lut::from(&chain result) is not the XOR of the operands".into());
+            ctx.check("esop-to-lut", l.num_vars() == n && Model::from_blocks(n, l.blocks()).bits == want, ev, "chain-lut", || "Lut::from(&chain result) is not the XOR of the operands".into());
         }
         Outcome::Panicked(msg) => ctx.violate("no-panic", ev, "esop-chain", format!("Esop ^-chain panicked: {}", msg)),
     }
